@@ -18,14 +18,14 @@
      relative names completed with the origin, `@`; `CLASSnnn`, `TYPEnnn`; `\# len hex` RDATA for
      any class and type, checked against `Rdata::validate`; the lexical layer on blanks, comments
      and line ends;
-   * records assembled from these, with TTL and class each written or omitted (context
+   * records assembled from these, with TTL and class each written or omitted, in either order (context
      defaults: `$TTL` default before previous TTL; previous class), owner absolute / relative /
      `@` / omitted (leading blanks ⇒ previous owner); `$ORIGIN` and `$TTL` directive lines; blank
      and comment-only lines;
    * whole files of such entries: exactly the denoted records, in order, with line numbers
      (`C23_records_partial`).
   NOT PROVED (the gap; the name says `_partial`)
-     the class-before-TTL order, type and class mnemonics, the typed RDATA syntaxes (A, AAAA, names,
+     type and class mnemonics, the typed RDATA syntaxes (A, AAAA, names,
      SOA, MX, TXT/HINFO strings quoted and unquoted, WKS, SRV, …), parentheses across lines,
      CRLF, a last line without newline.  These are covered on every run by the correspondence
      oracle, which is independent of these proofs: the harness's pretty-printer renders random
@@ -112,17 +112,17 @@ theorem C23_records_partial (es : List PEntry) (hwf : ∀ e ∈ es, WFEntry e) (
 
 /-! ### non-vacuity -/
 
-/-- `$ORIGIN t.` / `a\.b.\010c. 5 CLASS1 TYPE1 \# 4 01020304 ;x` / (blank) / ` TYPE16 \# 2 0161`
+/-- `$ORIGIN t.` / `a\.b.\010c. CLASS1 5 TYPE1 \# 4 01020304 ;x` / (blank) / ` TYPE16 \# 2 0161`
     / `$TTL 9` / `w CLASS3 TYPE99 \# 0` / `@ TYPE2 \# 3 017800` -/
 def exFile : List PEntry :=
   [.origin [[(116, .raw)]] [32] [] [],
-   .record ⟨.abs [[(97, .raw), (46, .esc), (98, .raw)], [(10, .dec), (99, .raw)]], some 5, some 1, 1,
+   .record ⟨.abs [[(97, .raw), (46, .esc), (98, .raw)], [(10, .dec), (99, .raw)]], some 5, some 1, true, 1,
       [1, 2, 3, 4], [32], [32], [59, 120]⟩,
    .blank [9] [],
-   .record ⟨.same, none, none, 16, [1, 97], [32, 9], [], []⟩,
+   .record ⟨.same, none, none, false, 16, [1, 97], [32, 9], [], []⟩,
    .ttl 9 [32] [] [],
-   .record ⟨.rel [] [(119, .raw)], none, some 3, 99, [], [32], [], []⟩,
-   .record ⟨.atSign, none, none, 2, [1, 120, 0], [32], [], []⟩]
+   .record ⟨.rel [] [(119, .raw)], none, some 3, false, 99, [], [32], [], []⟩,
+   .record ⟨.atSign, none, none, true, 2, [1, 120, 0], [32], [], []⟩]
 
 /-- the example file is well-formed and denotes four records -/
 theorem exFile_ok :
